@@ -21,7 +21,7 @@ def _value(rng, name, nonascii=False):
 
 
 def usable_attr(a, foreign):
-    if foreign:
+    if foreign is True:
         return True
     return not (a.startswith('xlink:') or a == 'xml:space' or a == 'name' or a == 'xml:lang' or a == 'source')
 
@@ -34,7 +34,7 @@ def gen_tree(rng, name, budget, depth=0, nonascii=False, foreign=False, p_opt_at
     budget[0] -= 1
     for a, d in spec.attributes_of_element(name).items():
         if not usable_attr(a, foreign):
-            if d['required'] and not foreign:
+            if d['required']:
                 return None     # the pinned library cannot be given this required attribute
             continue
         if d['required'] or rng.random() < p_opt_attr:
